@@ -172,13 +172,17 @@ func c20Main(args []string) error {
 						y = []byte{}
 					case op.Kind == "badhdr":
 						y = []byte("garbage-not-compressed-data")
-					default: // badbody: a valid stream, truncated or with a flipped byte
+					default: // badbody: a valid stream truncated, with a flipped byte, or followed by another stream
 						x := c20Payload(2+r.intn(3), r)
 						enc, _ := codec.Encode(nil, x)
 						if len(enc) > 4 {
-							if r.intn(2) == 0 {
+							switch r.intn(3) {
+							case 0:
 								y = enc[:len(enc)/2]
-							} else {
+							case 1:
+								enc2, _ := codec.Encode(nil, c20Payload(4, r))
+								y = append(append([]byte{}, enc...), enc2...)
+							default:
 								y = append([]byte{}, enc...)
 								y[len(y)/2] ^= 0x55
 							}
